@@ -23,7 +23,7 @@ func init() { sim.Register(c19{}) }
 func (c19) ID() string    { return "C19" }
 func (c19) Level() string { return "fault_enumeration" }
 func (c19) Rule() string {
-	return "histories of Accumulate / Result calls on 1-3 Accuracy instances interleaved by the call-granularity scheduler, with invalid-call faults (nil, rank 0/2, unequal lengths) inserted (thorough: every fault kind at every position of every history); model = two integers; twin = same data re-delivered under another partition and order. Non-trivial: >=2 accepted batches with >=1 rejected call between accepted ones. Distinct: hash of the (instance, op, batch size, fault kind) sequence."
+	return "histories of Accumulate / Result calls on 1-3 Accuracy instances interleaved by the call-granularity scheduler, with invalid-call faults (nil, rank 0/2, unequal lengths) inserted (thorough: every fault kind at every position of every history); model = two integers; twin = same data re-delivered under another partition and order. Non-trivial: >=2 accepted batches with >=1 rejected call between accepted ones. Distinct: hash of the (instance, op, batch size, fault kind) sequence. Also: one tensor object as prediction and target, delivery through Patch into used tensors, rare long-lived metrics (250-1100 calls) with Result read only at and around powers of two."
 }
 func (c19) Assumptions() []string {
 	return []string{
@@ -34,7 +34,7 @@ func (c19) Assumptions() []string {
 }
 func (c19) Extra() map[string]any {
 	e := baseExtra()
-	e["fault_kinds"] = []string{"invalid-call", "reorder (re-partition twin)"}
+	e["fault_kinds"] = []string{"invalid-call", "reorder (re-partition twin; delivery through Concat / Slice / Patch / Dot)", "re-submission of the same tensor objects; one object as prediction and target"}
 	return e
 }
 
